@@ -59,6 +59,7 @@ impl<R: Round, const B: Word> DivEuclid<FBig<R, B>> for FBig<R, B> {
     type Output = IBig;
     #[inline]
     fn div_euclid(self, rhs: FBig<R, B>) -> Self::Output {
+        assert_finite_operands(&self.repr, &rhs.repr);
         let (num, den) = align_as_int(self, rhs);
         num.div_euclid(den)
     }
@@ -92,6 +93,7 @@ impl<R: Round, const B: Word> RemEuclid<FBig<R, B>> for FBig<R, B> {
     type Output = FBig<R, B>;
     #[inline]
     fn rem_euclid(self, rhs: FBig<R, B>) -> Self::Output {
+        assert_finite_operands(&self.repr, &rhs.repr);
         let r_exponent = self.repr.exponent.min(rhs.repr.exponent);
         let context = Context::max(self.context, rhs.context);
 
@@ -134,6 +136,7 @@ impl<R: Round, const B: Word> DivRemEuclid<FBig<R, B>> for FBig<R, B> {
     type OutputRem = FBig<R, B>;
     #[inline]
     fn div_rem_euclid(self, rhs: FBig<R, B>) -> (IBig, FBig<R, B>) {
+        assert_finite_operands(&self.repr, &rhs.repr);
         let r_exponent = self.repr.exponent.min(rhs.repr.exponent);
         let context = Context::max(self.context, rhs.context);
 
